@@ -1,0 +1,7 @@
+//go:build verif
+
+package dictionarygen
+
+// VerifIdentifier exposes the identifier normalisation to the verification
+// harness (built only with -tags verif).
+func VerifIdentifier(name string) string { return identifier(name) }
